@@ -22,6 +22,11 @@ type RS struct {
 	si          int    //
 	SeekFail    bool   // Seek returns ErrInjected
 	Yield       func() // called on every Read (C05 interleaving widening)
+	// ZeroEvery > 0: every ZeroEvery-th Read call (never two in a row) returns (0, nil) before
+	// end of input - discouraged by the io.Reader contract but legal; bufio tolerates 100 in a
+	// row, io.ReadFull any number.
+	ZeroEvery int
+	ZeroReads int
 
 	Requested  int64 // sum of len(p) over Read calls issued before end of input
 	EOFReads   int   // Read calls issued at end of input (they deliver nothing)
@@ -60,6 +65,10 @@ func (r *RS) Read(p []byte) (int, error) {
 	if r.Pos >= lim {
 		r.EOFReads++
 		return 0, r.endErr()
+	}
+	if r.ZeroEvery > 0 && r.Reads%r.ZeroEvery == 0 {
+		r.ZeroReads++
+		return 0, nil
 	}
 	r.Requested += int64(len(p))
 	n := int64(len(p))
